@@ -83,6 +83,7 @@ def crop_effects(ctx, rule='C07-R2'):
     ctx.check(f1 == f2 == strip_updates(t.state), 'C07-R1', Q, f.node.name, f.loc(),
               'the selections are computed on a different frame than the one that is modified',
               instance='selections computed on the frame being cropped')
+    ctx.sample({'cropping selections': [T.show(strip_updates(sel1[1]), maxlen=200), T.show(strip_updates(sel2[1]), maxlen=200)]})
     good, why = partition_above_limit([sel1[1], sel2[1]])
     ctx.check(good, 'C07-R1', Q, f.node.name, f.loc(), f'cropping selections: {why}',
               facts={'first': T.show(strip_updates(sel1[1]), maxlen=300), 'second': T.show(strip_updates(sel2[1]), maxlen=300)},
